@@ -844,6 +844,18 @@ func (ev *Evaluator) call(x *ECall) SVal {
 			a := ev.eval(x.Args[0])
 			fx.ufun("parseint32_val", []string{"String"}, "Int")
 			return SVal{v: Val{t: "(parseint32_val " + a.v.t + ")"}, typ: intT}
+		case "floatOK":
+			a := ev.eval(x.Args[0])
+			fx.ufun("parsefloat_ok", []string{"String", "Int"}, "Bool")
+			return SVal{v: Val{t: "(parsefloat_ok " + a.v.t + " 64)"}, typ: boolT}
+		case "floatVal":
+			a := ev.eval(x.Args[0])
+			fx.ufun("parsefloat_val", []string{"String", "Int"}, "F64")
+			return SVal{v: Val{t: "(parsefloat_val " + a.v.t + " 64)"}, typ: types.Typ[types.Float64]}
+		case "trimSpace":
+			a := ev.eval(x.Args[0])
+			fx.ufun("trimspace", []string{"String"}, "String")
+			return SVal{v: Val{t: "(trimspace " + a.v.t + ")"}, typ: stringT}
 		case "atoiOK":
 			a := ev.eval(x.Args[0])
 			fx.ufun("atoi_ok", []string{"String"}, "Bool")
